@@ -13,6 +13,15 @@ def build_problem(desc, circular=False):
     np.random.seed(desc.get("np_seed", 0))
     cons = [problems.build_spec(d) for d in desc["constraints"]]
     objs = [problems.build_spec(d) for d in desc.get("objectives", [])]
+    if desc.get("reuse_after"):
+        # the same specification objects were used before on another (shorter) problem: natural when one list of
+        # constraints is applied to several sequences; it must not influence this problem
+        try:
+            warm = dc.DnaOptimizationProblem(desc["reuse_after"], constraints=cons, objectives=objs, logger=None)
+            warm.all_constraints_pass()
+        except Exception:
+            pass
+        np.random.seed(desc.get("np_seed", 0))
     p = Rec(desc["sequence"], constraints=cons, objectives=objs, logger=None)
     problems.apply_settings(p, desc.get("settings", {}))
     return p
